@@ -6,5 +6,9 @@ pub broadcast axiom fn finite_self_diff(x: f64) ensures finite(x) ==> f_le(s_abs
 /// 1.0 == 1.0 and 0.0 == 0.0 (IEEE comparison of the two literals with themselves)        kani: eq_refl_literals
 #[verifier::allow(broadcast_without_trigger)]
 pub broadcast axiom fn eq_refl_literals() ensures (1.0f64).eq_spec(&1.0f64), (0.0f64).eq_spec(&0.0f64), !(1.0f64).eq_spec(&0.0f64), !(0.0f64).eq_spec(&1.0f64);
-pub broadcast group ieee_axioms { finite_self_diff, eq_refl_literals }
+/// x > x never holds                                                                   kani: gt_irrefl
+pub broadcast axiom fn gt_irrefl(x: f64) ensures !#[trigger] f_gt(x, x);
+/// !(x > m) and i > m  imply  !(x > i)   (the running maximum of a pivot search stays maximal)   kani: ngt_trans
+pub broadcast axiom fn ngt_trans(x: f64, m: f64, i: f64) requires !f_gt(x, m), f_gt(i, m) ensures !#[trigger] f_gt(x, i), #[trigger] f_gt(i, m);
+pub broadcast group ieee_axioms { finite_self_diff, eq_refl_literals, gt_irrefl, ngt_trans }
 }
